@@ -453,7 +453,7 @@ Qed.
 (* ---------- names ---------- *)
 (* the value of a name inside a body, in the specification: what [flookup] finds *)
 Definition name_res (env0 : tenv) (fe : fenv) (x : bytes) : res :=
-  match flookup env0 fe x with Some b => bind_res b | None => CompErr end.
+  match flookup env0 fe x with Some b => bind_res b | None => if expr_builtin x then OutOfFragment else CompErr end.
 
 Lemma lookup_ents_none fe x : lookup x fe = None -> lookup x (ents fe) = None.
 Proof.
